@@ -5,7 +5,9 @@ Decided: the entry discipline of MutableFileNode (public operation =
 Deferred chain, the one-node-per-cap memo of NodeMaker and the rule that
 directory edits reach the grid only through node.modify (DESIGN.md section 5,
 C13), plus the rule that every work-carrying callback hangs on the returned Deferred (node level C13.6,
-directory level C13.7; added after the mutation sweep)."""
+directory level C13.7; added after the mutation sweep), that the memo key is a function of the cap string the node
+is built from (C13.8) and that nothing inside a serialised region re-enters the serialiser (C13.9; both added after
+the seeded changes C13-C / C13-D)."""
 from sa.h import *
 
 EXPLANATION = (
@@ -33,7 +35,14 @@ EXPLANATION = (
     "returned), never left unattached or hung on another Deferred; (7) the same two conditions for the "
     "DirectoryNode operations (the six mutators and set_uri/add_file/move_child_to): each returns on every path the "
     "Deferred of every edit it starts (self._node.modify, or a mutator of this or a parameter directory), and "
-    "callbacks starting an edit hang on the returned Deferred. "
+    "callbacks starting an edit hang on the returned Deferred; (8) in create_from_cap, writecap/readcap reach the memo "
+    "key only through the one cap string handed to uri.from_string to build the node (same normal form, same reaching "
+    "definitions), so the same cap string gives the same key whatever other arguments accompany it; (9) no re-entry: "
+    "the functions queued with _do_serialized in MutableFileNode / MutableFileVersion, and every method, nested def and "
+    "lambda they reach through self.<x>, never name a serialised entry point (a method that calls self._do_serialized) "
+    "of their own object; and the code that runs while the node's serialiser is held - the MutableFileVersion methods "
+    "the _impls call on their callback arguments, Publish/Retrieve/ServermapUpdater (constructed there), the directory "
+    "modifiers' modify and the DirectoryNode helpers they use - never names self._node.<entry point of the node>. "
     "Undecided: fairness and ordering inside Twisted, nodes created by create_mutable_file (not memoised: outside "
     "'obtained through the same capability string'), callers that take a MutableFileVersion and write through it; "
     "whether an operation that is correctly queued and awaited does the right thing (which servermap mode a retry "
@@ -42,7 +51,8 @@ EXPLANATION = (
     "that stop an operation from starting any grid work (a deleted callback lambda, `return None` in place of the "
     "work) are functional failures, not ordering failures, and are not reported unless they leave a work-carrying "
     "named callback unattached.")
-TECHNIQUE = "static analysis: return-shape and who-may-call sweeps, Deferred registration model, CFG path rules, reaching definitions"
+TECHNIQUE = ("static analysis: return-shape and who-may-call sweeps, Deferred registration model, CFG path rules, "
+             "reaching definitions, normal-form value identity, intra-class reachability")
 
 MFN = "mutable.filenode:MutableFileNode"
 MFV = "mutable.filenode:MutableFileVersion"
@@ -367,6 +377,20 @@ def run(ctx: Context):
                   "path, the Deferred of each directory edit they start; callbacks that start an edit hang on the returned "
                   "Deferred", expected=9) as r:
         _dirnode_awaited_rule(r, idx)
+
+    # -- 8. the memo key is a function of the cap string the node is built from ----------------
+    with ctx.rule("C13.8", "E2/E6", "NodeMaker.create_from_cap: writecap/readcap enter the memo key only through the one cap "
+                  "string that is given to uri.from_string to build the node (same cap string => same key => same node "
+                  "object, whatever else the caller passed)", expected=2) as r:
+        _memo_key_rule(r, idx)
+
+    # -- 9. nothing inside a serialised region re-enters the serialiser ---------------------------
+    with ctx.rule("C13.9", "R4/E4", "code that runs while a serialiser is held (the _impls of MutableFileNode / "
+                  "MutableFileVersion and everything they reach on self; the version, Publish/Retrieve/ServermapUpdater and "
+                  "directory-modifier code they run) never invokes a serialised entry point of the same object, nor of the "
+                  "node whose serialiser is held: such a call queues behind the operation that waits for it (deadlock)",
+                  expected=18) as r:
+        _reentrancy_rule(r, idx)
 
 
 # --------------------------------------------------------------- rule bodies
@@ -957,3 +981,321 @@ def _dirnode_rule(r, idx):
             called |= {call_tail(c) for c in calls_in_func(g, None, into_lambda=True) if call_tail(c) in DIRNODE_MUTATORS}
         r.require(targets <= called, fn, fn.loc(), "%s no longer delegates to %s (calls %s)" % (
             mname, sorted(targets), sorted(called)))
+
+
+# --------------------------------------------------------------- C13.8
+def _node_of(cfg, x):
+    """The CFG node in which AST node `x` is evaluated."""
+    for n in cfg.nodes:
+        for e in node_exprs(n):
+            if any(y is x for y in ast.walk(e)):
+                return n
+    return None
+
+
+def _memo_key_rule(r, idx):
+    cf = idx.func(NM + ".create_from_cap")
+    cfg = cf.cfg()
+    fnorm = FlowNorm(cf)
+    rd = C.reaching_defs(cfg)
+    params = set(cf.params)
+    caps = {"writecap", "readcap"} & params
+    if len(caps) != 2:
+        raise AnchorVanished("create_from_cap(writecap, readcap, ..) signature changed")
+    # the cap string the node is built from: first argument of the uri.from_string(..) that feeds _create_from_single_cap
+    built = []
+    for n in cfg.nodes:
+        for c in node_calls(n):
+            if call_tail(c) == "_create_from_single_cap":
+                a = arg(c, 0, "cap")
+                ra = fnorm.resolve(n, a) if a is not None else None
+                if not (isinstance(ra, ast.Call) and call_tail(ra) == "from_string"):
+                    raise AnchorVanished("create_from_cap no longer builds the node from uri.from_string(<cap string>) "
+                                         "(found %s)" % src(cf, ra))
+                e = arg(ra, 0, "u")
+                nfs = _node_of(cfg, ra)
+                if e is None or nfs is None:
+                    raise AnchorVanished("uri.from_string call without a cap-string argument")
+                built.append((nfs, ra, e))
+    if not built:
+        raise AnchorVanished("create_from_cap no longer calls self._create_from_single_cap")
+    forms = {fnorm.norm(nfs, e) for (nfs, _c, e) in built}
+    r.site(cf, built[0][1], "cap string the node is built from: %s" % sorted(forms))
+    if len(forms) != 1:
+        r.violation(cf, cf.loc(built[0][1]), "nodes are built from different cap strings on different paths: %s" % sorted(forms))
+        return
+    (s_e,) = tuple(forms)
+    nfs0, _c0, e0 = built[0]
+    r.require(caps <= depends_on(cf, e0), cf, cf.loc(e0), "the cap string the node is built from (%s) no longer depends on both "
+              "writecap and readcap" % s_e)
+    stores_ = []
+    for n in cfg.nodes:
+        for e in node_exprs(n):
+            for x in own_nodes(e):
+                if isinstance(x, ast.Subscript) and attr_path(x.value) == "self._node_cache" and isinstance(x.ctx, ast.Store):
+                    stores_.append((n, x))
+    if not stores_:
+        raise AnchorVanished("create_from_cap never stores into self._node_cache (reported by C13.4)")
+    local_defs = {}
+    for n in cfg.nodes:
+        if n.kind == "stmt" and isinstance(n.ast, (ast.Assign, ast.AnnAssign)):
+            for nm in node_stores(n):
+                v = assign_value(n, nm)
+                if v is not None:
+                    local_defs.setdefault(nm, []).append((n, v))
+
+    def same_value(n, x):
+        """Expression x (evaluated at n) is the cap string given to uri.from_string."""
+        if fnorm.norm(n, x) != s_e:
+            return False
+        for y in ast.walk(x):       # a local that is re-bound between the two places is not the same value
+            if isinstance(y, ast.Name) and y.id not in params:
+                if rd.get(n.id, {}).get(y.id) != rd.get(nfs0.id, {}).get(y.id):
+                    return False
+        return True
+
+    # when the cap string is `a or b`: a alone is that value where a is known true, b alone where a is known false
+    re0 = fnorm.resolve(nfs0, e0)
+    alt = None
+    if isinstance(re0, ast.BoolOp) and isinstance(re0.op, ast.Or) and len(re0.values) == 2 \
+            and all(isinstance(v, ast.Name) and v.id in params for v in re0.values):
+        alt = (re0.values[0].id, re0.values[1].id)
+
+    def guarded(n, name):
+        if alt is None or name not in alt:
+            return False
+        want = "truth" if name == alt[0] else "false"
+        first = norm_src(alt[0])
+
+        def gate(m, lab):
+            f = fnorm.edge_fact(m, lab)
+            return bool(f) and f[0] == want and f[1] == first and f[2] is None
+        return not find_path_avoiding(cfg, lambda m: m is n, gate_edge=gate, kill=stores(alt[0]))
+
+    def direct_caps(n, x, depth, seen):
+        """(node, Name) occurrences of writecap/readcap that reach the value of x other than through the cap string."""
+        if same_value(n, x):
+            return []
+        if alt is not None and isinstance(x, ast.IfExp) and isinstance(x.test, ast.Name) and x.test.id == alt[0] \
+                and isinstance(x.body, ast.Name) and x.body.id == alt[0] \
+                and isinstance(x.orelse, ast.Name) and x.orelse.id == alt[1]:
+            return []           # `a if a else b` is `a or b`
+        if isinstance(x, ast.Name):
+            if x.id in caps:
+                return [] if guarded(n, x.id) else [(n, x)]
+            out = []
+            if depth > 0 and x.id in local_defs:
+                reaching = rd.get(n.id, {}).get(x.id, frozenset())
+                for (dn, dv) in local_defs[x.id]:
+                    if dn.id in reaching and (dn.id, x.id) not in seen:
+                        out += direct_caps(dn, dv, depth - 1, seen | {(dn.id, x.id)})
+            return out
+        out = []
+        for ch in ast.iter_child_nodes(x):
+            if isinstance(ch, ast.expr):
+                out += direct_caps(n, ch, depth, seen)
+            elif isinstance(ch, (ast.keyword, ast.comprehension, ast.FormattedValue)):
+                for sub in ast.iter_child_nodes(ch):
+                    if isinstance(sub, ast.expr):
+                        out += direct_caps(n, sub, depth, seen)
+        return out
+    r.count(len(cfg.nodes))
+    for (sn, sx) in stores_:
+        r.site(cf, sx, "memo key")
+        bad = direct_caps(sn, sx.slice, 6, frozenset())
+        reported = set()
+        for (bn, bx) in bad:
+            if bx.id in reported:
+                continue
+            reported.add(bx.id)
+            other = sorted(caps - {bx.id})
+            r.violation(cf, cf.loc(bx), "the memo key %s uses %s directly and not through %s, the cap string the node is built "
+                        "from: the same cap string requested with a different %s gets another key, hence a second node "
+                        "object with its own serialiser" % (fnorm.norm(sn, sx.slice), bx.id, s_e, "/".join(other) or "argument"))
+
+
+# --------------------------------------------------------------- C13.9
+WORKER_CLASSES = ("mutable.publish:Publish", "mutable.retrieve:Retrieve", "mutable.servermap:ServermapUpdater")
+MODIFIER_QUALS = ("dirnode:Adder", "dirnode:Deleter", "dirnode:MetadataSetter")
+
+
+def _is_func(m):
+    return m is not None and hasattr(m, "node") and hasattr(m, "body")
+
+
+def _serialised_entries(idx, ci):
+    """{name of a method that queues work with self._do_serialized: [the queued FuncInfo, ..]} for class `ci`."""
+    out = {}
+    for nm, m in ci.methods.items():
+        if nm == "_do_serialized":
+            continue
+        for g in _bodies(m):
+            for c in calls_in_func(g, "_do_serialized", into_lambda=True):
+                if call_name(c) != "self._do_serialized":
+                    continue
+                tgt = c.args[0] if c.args else None
+                q = None
+                if isinstance(tgt, ast.Attribute) and isinstance(tgt.value, ast.Name) and tgt.value.id == "self":
+                    q = ci.lookup(tgt.attr)
+                elif isinstance(tgt, ast.Name):
+                    info = _callable_info(idx, g, tgt)
+                    q = info[0] if info else None
+                if not _is_func(q):
+                    raise AnchorVanished("%s queues %s with _do_serialized: not a method of the same object" % (
+                        short(g), src(g, tgt) if tgt is not None else "nothing"))
+                out.setdefault(nm, []).append(q)
+    return out
+
+
+def _self_refs(m):
+    """(body, Attribute) for every load of self.<attr> in method m, its nested defs and lambdas."""
+    for g in _bodies(m):
+        for x in func_own_nodes(g, into_lambda=True):
+            if isinstance(x, ast.Attribute) and isinstance(x.ctx, ast.Load) and isinstance(x.value, ast.Name) \
+                    and x.value.id == "self":
+                yield g, x
+
+
+def _reaching_entries(ci, entries):
+    """Names of ci's methods through which a caller ends up in a serialised entry point (fixpoint over self.X)."""
+    bad = set(entries) | {"_do_serialized"}
+    refs = {nm: {x.attr for (_g, x) in _self_refs(m)} for nm, m in ci.methods.items()}
+    changed = True
+    while changed:
+        changed = False
+        for nm, rs in refs.items():
+            if nm not in bad and nm != "_do_serialized" and rs & bad:
+                # a method that only *names* an entry as the function queued is not there (none today)
+                bad.add(nm)
+                changed = True
+    return bad
+
+
+def _region_walk(r, starts, policy, what):
+    """Walk everything reachable from `starts` [(ClassInfo, FuncInfo, label)] following self.X (and the policy's
+    hops / constructor calls); report forbidden uses.  Returns the list of (ClassInfo, FuncInfo) reached."""
+    seen, order, parent = {}, [], {}
+    queue = []
+
+    def push(ci, m, frm, via):
+        key = (ci.qual, m.qual)
+        if key in seen:
+            return
+        seen[key] = (ci, m)
+        parent[key] = (frm, via)
+        queue.append((ci, m))
+
+    def chain(key):
+        names = []
+        while key is not None:
+            frm, via = parent[key]
+            names.append(via)
+            key = frm
+        return " -> ".join(reversed(names))
+    for (ci, m, label) in starts:
+        push(ci, m, None, label)
+    while queue:
+        ci, m = queue.pop(0)
+        key = (ci.qual, m.qual)
+        order.append((ci, m))
+        pol = policy(ci)
+        for g in _bodies(m):
+            for x in func_own_nodes(g, into_lambda=True):
+                if isinstance(x, ast.Call) and isinstance(x.func, ast.Name) and x.func.id in pol.get("ctors", {}):
+                    tci = pol["ctors"][x.func.id]
+                    for nm, t in tci.methods.items():
+                        push(tci, t, key, "%s.%s" % (tci.name, nm))
+                    continue
+                if not (isinstance(x, ast.Attribute) and isinstance(x.ctx, ast.Load)):
+                    continue
+                base = attr_path(x.value)
+                if base == "self":
+                    if x.attr in pol.get("self_forbidden", ()):
+                        r.violation(g, g.loc(x), "%s runs while %s is held (%s) but uses self.%s, which enters the serialiser "
+                                    "of the same object: the call is queued behind the very operation that waits for it, so "
+                                    "this operation and every later one on the object never complete" % (
+                                        short(g), what, chain(key), x.attr))
+                        continue
+                    t = ci.lookup(x.attr)
+                    if _is_func(t):
+                        push(ci, t, key, x.attr)
+                elif base is not None and base == pol.get("node_attr") and x.attr in pol.get("node_forbidden", ()):
+                    r.violation(g, g.loc(x), "%s runs while %s is held (%s) but uses %s.%s, which enters that same "
+                                "serialiser: the call is queued behind the operation that waits for it (deadlock)" % (
+                                    short(g), what, chain(key), base, x.attr))
+                elif base is not None and base in pol.get("hops", {}):
+                    tci = pol["hops"][base]
+                    t = tci.lookup(x.attr)
+                    if _is_func(t):
+                        push(tci, t, key, "%s.%s" % (tci.name, x.attr))
+    r.count(len(order))
+    return order
+
+
+def _reentrancy_rule(r, idx):
+    mfn, mfv, dn = idx.cls(MFN), idx.cls(MFV), idx.cls(DN)
+    workers = [idx.cls(q) for q in WORKER_CLASSES]
+    modifiers = [idx.cls(q) for q in MODIFIER_QUALS]
+    ent_n = _serialised_entries(idx, mfn)
+    ent_v = _serialised_entries(idx, mfv)
+    if not ent_n or not ent_v:
+        raise AnchorVanished("no method of %s uses self._do_serialized" % (mfn.name if not ent_n else mfv.name))
+    # pass 1 / 2: inside one object's serialised region, no use of that object's own entry points
+    reached_n = []
+    for ci, ent, what in ((mfn, ent_n, "the node's serialiser"), (mfv, ent_v, "the version's serialiser")):
+        starts = []
+        for nm in sorted(ent):
+            for q in ent[nm]:
+                r.site(q, None, "queued by %s.%s" % (ci.name, nm))
+                starts.append((ci, q, q.name))
+        forb = set(ent) | {"_do_serialized"}
+        order = _region_walk(r, starts, lambda _ci, _f=forb: {"self_forbidden": _f}, what)
+        if ci is mfn:
+            reached_n = order
+    # pass 3: foreign code run while the *node's* serialiser is held must not come back into the node's entry points
+    node_bad = _reaching_entries(mfn, ent_n)
+    worker_by_name = {w.name: w for w in workers}
+    starts, seen_tail = [], set()
+    for (_ci, m) in reached_n:
+        for g in _bodies(m):
+            cbparams = set(g.params) - {"self"}
+            nodes = list(func_own_nodes(g, into_lambda=True))
+            for x in nodes:
+                if isinstance(x, ast.Lambda):
+                    cbparams |= {a.arg for a in x.args.args}
+            for x in nodes:
+                if isinstance(x, ast.Call) and isinstance(x.func, ast.Attribute) and isinstance(x.func.value, ast.Name) \
+                        and x.func.value.id in cbparams and _is_func(mfv.lookup(x.func.attr)):
+                    t = x.func.attr
+                    if t not in seen_tail:
+                        seen_tail.add(t)
+                        r.site(g, x, "version method run inside the node's region")
+                        starts.append((mfv, mfv.lookup(t), "%s: %s.%s" % (short(g), x.func.value.id, t)))
+                elif isinstance(x, ast.Call) and isinstance(x.func, ast.Name) and x.func.id in worker_by_name:
+                    w = worker_by_name[x.func.id]
+                    for nm, t in w.methods.items():
+                        starts.append((w, t, "%s: %s.%s" % (short(g), w.name, nm)))
+    if len(seen_tail) < 3:
+        raise AnchorVanished("the node's _impls no longer delegate to MutableFileVersion operations (found %s)" % sorted(seen_tail))
+    for mc in modifiers:
+        t = mc.lookup("modify")
+        if not _is_func(t):
+            raise AnchorVanished("%s.modify vanished" % mc.name)
+        r.site(t, None, "directory modifier run inside node.modify")
+        starts.append((mc, t, "%s.modify" % mc.name))
+    mod_names = {m.qual for m in modifiers}
+
+    def policy(ci):
+        if ci.qual in mod_names:
+            return {"hops": {"self.node": dn}}
+        return {"node_attr": "self._node", "node_forbidden": node_bad, "ctors": worker_by_name}
+    order = _region_walk(r, starts, policy, "the node's serialiser")
+    reached_cls = {ci.qual for (ci, _m) in order}
+    for w in workers:
+        if w.qual not in reached_cls:
+            raise AnchorVanished("%s is no longer constructed by the code that runs inside the node's serialised region" % w.name)
+        n_use = sum(1 for m in w.methods.values() for g in _bodies(m) for x in func_own_nodes(g, into_lambda=True)
+                    if isinstance(x, ast.Attribute) and attr_path(x.value) == "self._node")
+        if n_use < 1:
+            raise AnchorVanished("%s no longer keeps the file node as self._node" % w.name)
+        r.site("%s: %d uses of self._node" % (w.name, n_use))
